@@ -20,7 +20,7 @@ func (lc *lineCalc) add(s string, prefix int) {
 			lc.lfs = append(lc.lfs, prefix+i)
 		}
 	}
-	verifEv("", "lfswrite", prefix, len(lc.lfs), lc)
+	verifEv("", "lfswrite", prefix, verifHeld(lc), lc)
 }
 
 // lineColAt gives (line, column) pair for a given position.
@@ -28,7 +28,7 @@ func (lc *lineCalc) add(s string, prefix int) {
 func (lc *lineCalc) lineColAt(pos int) (int, int) {
 
 	j := sort.SearchInts(lc.lfs, pos)
-	verifEv("", "lfsread", pos, j, lc)
+	verifEv("", "lfsread", pos, verifHeld(lc), lc)
 
 	if j == len(lc.lfs) {
 		if j == 0 {
